@@ -290,6 +290,14 @@ func (x *Exec) dynamicCall(cs *callSite, fv ssa.Value, v *Val) *Val {
 				cv := x.cvOfVal(v)
 				env.vars[fmt.Sprintf("result%d", i)] = cv
 			}
+			// the arguments of this call of the function value: arg0, arg1, ...
+			for k, a := range cs.args {
+				cv := x.cvOfVal(a)
+				if k < len(cs.cc.Args) {
+					cv.Ty = cs.cc.Args[k].Type()
+				}
+				env.vars[fmt.Sprintf("arg%d", k)] = cv
+			}
 			for _, cl := range ens {
 				t, err := x.evalBool(env, cl.Expr)
 				if err != nil {
